@@ -76,8 +76,11 @@ StringDictionaryXBW::StringDictionaryXBW(IteratorDictString *it) {
     if (lenCurrent >= maxlength)
       maxlength = lenCurrent + 1;
 
+    // The string is inserted with its terminator (255); the separator of
+    // the caller's buffer is restored afterwards
     strCurrent[lenCurrent] = (uchar)255;
     root->insert(strCurrent, lenCurrent, occ, &nodes);
+    strCurrent[lenCurrent] = 0;
 
     elements++;
   }
